@@ -280,6 +280,8 @@ def run(ctx: Ctx) -> None:
         # tie of the modelled block sub-parser (mini_verbatim is a theorem about exactly this model)
         from . import miniblock
         miniblock.tie_all(ctx, drv, quick)
+        from . import pipeline
+        pipeline.tie_full(ctx, drv, 1500 if quick else 40000, table=True)     # all eleven block rules (t_verbatim / fullT_verbatim are about this model)
         # verbatim blocks behind a container prefix: the content is the content of the bare block (only the prefix is removed)
         from markdown_it import MarkdownIt
         mdq = MarkdownIt("commonmark")
